@@ -368,7 +368,39 @@ def c33(ck, F, tier):
     guarded(ck, rs.triple_cut, F)
 
 
-PROPS = {"C08": c08, "C33": c33, "C12": c12, "C13": c13, "C14": c14, "C15": c15, "C16": c16, "C09": c09, "C22": c22, "C34": c34, "C21": c21, "C05": c05, "C28": c28, "C10": c10, "C29": c29, "C17": c17, "C01": c01, "C02": c02, "C03": c03, "C04": c04, "C23": c23, "C26": c26}
+def c31(ck, F, tier):
+    import rules_struct as rs
+    ck.explanation = (
+        "Static decision of the spill bookkeeping guards: spills are reset before structural relocations (SPILL-RESET); in "
+        "set_cells_with_result no #SPILL! decision is reachable after a spill cell was written and the blocking scan and the "
+        "write loop iterate identical ranges; Cell::SpillCell is constructed only by the evaluator and the importer; "
+        "spill clean-ups in evaluate_cell and in the undo arm are guarded by an ownership test on the cell's anchor. "
+        "Exactness of block contents and staleness across passes are not decided.")
+    ck.rule("SPILL-RESET", "dynamic spills are reset before any cell relocation", floor=12)
+    ck.rule("SPILL", "spill write/clear guards and constructors", floor=8)
+    guarded(ck, rs.spill_reset, F)
+    guarded(ck, rs.spill_rules, F)
+
+
+def c27(ck, F, tier):
+    import rules_struct as rs
+    ck.explanation = (
+        "Static decision of the guards at the writers of workbook structure: (NAME-GUARD) every value that becomes a "
+        "worksheet name (set_name, new_empty_worksheet, field store) passed is_valid_sheet_name on every path and the "
+        "existing names were consulted, except generated names; (ID-FRESH) every sheet_id of a new worksheet comes from "
+        "get_new_sheet_id() or a captured id; (GRID-GUARD) update_cell's insertions are dominated by the row/column validity "
+        "test and only it (and the DeleteRows undo) inserts into sheet_data; (SPILL) spill cells are constructed only by the "
+        "evaluator/importer. Sortedness/disjointness of cols, uniqueness of rows and index validity are value invariants of "
+        "loops and are not decided.")
+    ck.rule("NAME-GUARD", "worksheet names are validated and checked for uniqueness at every writer", floor=6)
+    ck.rule("ID-FRESH", "new worksheets get a fresh or captured sheet_id", floor=4)
+    ck.rule("GRID-GUARD", "cells enter sheet_data only through the validated path", floor=4)
+    ck.rule("SPILL", "spill write/clear guards and constructors", floor=8)
+    guarded(ck, rs.wellformed_guards, F)
+    guarded(ck, rs.spill_rules, F)
+
+
+PROPS = {"C08": c08, "C27": c27, "C31": c31, "C33": c33, "C12": c12, "C13": c13, "C14": c14, "C15": c15, "C16": c16, "C09": c09, "C22": c22, "C34": c34, "C21": c21, "C05": c05, "C28": c28, "C10": c10, "C29": c29, "C17": c17, "C01": c01, "C02": c02, "C03": c03, "C04": c04, "C23": c23, "C26": c26}
 
 
 def run(pid, tier):
